@@ -103,7 +103,8 @@ Fixpoint py_eval (o : oracle) (l : lit) {struct l} : option out :=
                match items with [] => Some [] | (k, v) :: r =>
                  match py_eval o k, py_eval o v, go r with
                  | Some a, Some b, Some rest => Some ((a, b) :: rest) | _, _, _ => None end end) items with
-      | Some kvs => Some (build_dict kvs) | None => None end
+      (* dict(items): TypeError (no value) when a key cannot be hashed; keys that are equal in Python are one entry *)
+      | Some kvs => if keys_hashable kvs then Some (build_dict kvs) else None | None => None end
   end.
 
 (* well-formedness of trees: token kinds, non-empty string runs, every prefix of a string run
